@@ -311,6 +311,8 @@ func checkC02(c *Ctx) {
 	}
 
 	checkC02Multibyte(c)
+	checkC02AnyLength(c)
+	checkLineSetReplaces(c, "C02.set-replaces")
 	checkC02TrimAndQuote(c)
 	checkReturnedLine(c, "C02.returned-line")
 }
@@ -675,6 +677,9 @@ func checkC04(c *Ctx) {
 	} else {
 		r.Unk("C04.clear-after-newline", "(*display.Engine).displayLine", "-", "anchor not found")
 	}
+
+	checkC04ZeroMove(c)
+	checkC04SuggestedAgreement(c)
 
 	// ---- DisplayLine measures rows in columns (K7, explicit)
 	r.Rule("C04.clear-by-width", "K7", "DisplayLine compares a column measure of the row (not its byte length) with the terminal width when deciding to clear to the end of line", 1)
